@@ -165,7 +165,7 @@ pub fn check(c: &DamageCase, probe: &Probe) -> Verdict {
 pub fn case_strategy() -> BoxedStrategy<DamageCase> {
     let src = || {
         (0..SUFFIXES.len(), builder::events_strategy(builder::simple_tag_strategy(), 16), proptest::bool::weighted(0.1))
-            .prop_map(|(suffix, events, crlf)| SrcCase { suffix, events, crlf, echo: false, no_eol: false, bom: false, nul: false })
+            .prop_map(|(suffix, events, crlf)| SrcCase { suffix, events, crlf, echo: false, no_eol: false, bom: false, nul: false, far: false })
     };
     // make sure there is at least one block: prepend an Open
     let with_block = (src(), builder::simple_tag_strategy(), builder::place_strategy()).prop_map(|(mut s, tag, place)| {
